@@ -72,7 +72,7 @@ func genC16Case(t *rapid.T) *StructCase {
 		return c
 	}
 	if rapid.IntRange(0, 3).Draw(t, "mode") > 0 {
-		c = genNamedCase(t, namedOpts{roots: []string{"Top", "Mid", "Tree"}, marks: []string{"required", "exist", "required", "-"},
+		c = genNamedCase(t, namedOpts{roots: []string{"Top", "Mid", "Tree", "Alias"}, marks: []string{"required", "exist", "required", "-"},
 			msgMode: 3, maxDepth: 3, density: 5, extra: c16Names, unscoped: true,
 			topShapes: []string{"ptr", "ptr", "ptr", "val", "ptrptr", "slice", "sliceptr", "mapstr", "mapint", "arrayval"}})
 		if c.Root.K == "slice" || c.Root.K == "map" || c.Root.K == "array" {
